@@ -310,6 +310,31 @@ pub fn run(cfg: &Cfg, out: &mut Out) {
         }
         out.line("c01.miri_use", "5", &acc.to_string(), "-", "-");
         }
+        if want("strslice") {
+            let s = "aé锈🧠-x";
+            let mut acc = 0usize;
+            for i in [0usize, 1, 3, 6, 10, 11, 12, 99, usize::MAX] {
+                acc += kstr::str_from(s, i).len() + kstr::str_up_to(s, i).len() + kstr::str_range(s, 1, i).len();
+                let (a, b) = kstr::split_at(s, i);
+                acc += a.len() * 3 + b.len();
+                acc += kstr::get_from(s, i).map_or(7, |x| x.len()) + kstr::get_up_to(s, i).map_or(7, |x| x.len()) + kstr::get_range(s, 1, i).map_or(7, |x| x.chars().count());
+                acc += kstr::is_char_boundary(s, i) as usize;
+            }
+            out.line("c01.miri_use", "6", &acc.to_string(), "-", "-");
+        }
+        if want("parse") {
+            let mut acc = 0u128;
+            for s in ["0", "7", "255", "256", "123456789", "00000000123456789012", "18446744073709551615", "18446744073709551616",
+                      "-128", "-170141183460469231731687303715884105728", "340282366920938463463374607431768211455", "12345678x", "x", ""] {
+                acc += konst::primitive::parse_u8(s).map_or(1, |v| v as u128) + konst::primitive::parse_u32(s).map_or(2, |v| v as u128);
+                acc += konst::primitive::parse_u64(s).map_or(3, |v| v as u128 % 1000) + konst::primitive::parse_i128(s).map_or(4, |v| (v % 1000).unsigned_abs());
+                acc += konst::primitive::parse_u128(s).map_or(5, |v| v % 1000) + konst::primitive::parse_isize(s).map_or(6, |v| (v % 1000).unsigned_abs() as u128);
+                let p = Parser::new(s);
+                acc += p.parse_u16().map_or(7, |(v, q)| v as u128 + q.remainder().len() as u128) + p.parse_i64().map_or(8, |(v, q)| (v % 1000).unsigned_abs() as u128 + q.start_offset() as u128);
+                acc += konst::primitive::parse_bool(s).map_or(9, |b| b as u128);
+            }
+            out.line("c01.miri_use", "7", &acc.to_string(), "-", "-");
+        }
         if want("misc") {
         let _ = konst::chr::encode_utf8('🧠').as_str().len();
         let _ = konst::chr::from_u32(0xD7FF);
